@@ -2,7 +2,7 @@
    argument tokens in, an outcome and result tokens out.  All calls into the
    models are made here, in Gallina; the hand-written OCaml only tokenises. *)
 From Coq Require Import String Ascii.
-From Dryoc Require Import Lib.Outcome Impl.Blake2b Impl.Kdf Impl.Poly1305 Impl.Hashes Impl.SecretBox Impl.SecretStream Impl.Scalarmult Impl.PwhashStr Impl.Serde.
+From Dryoc Require Import Lib.Outcome Impl.Blake2b Impl.Kdf Impl.Poly1305 Impl.Hashes Impl.SecretBox Impl.SecretStream Impl.Scalarmult Impl.PwhashStr Impl.Serde Impl.Rng.
 Open Scope Z_scope.
 
 Inductive tok :=
@@ -53,7 +53,7 @@ Fixpoint stream_steps (steps : list tok) (sp sl : state) : list tok :=
 Definition out_open (r : outcome unit * bytes) : outcome (list tok) :=
   Ok [class_tok (fst r); TB (snd r)].
 
-Definition run (op : string) (args : list tok) : option (outcome (list tok)) :=
+Definition dispatch (op : string) (args : list tok) : option (outcome (list tok)) :=
   if String.eqb op "kdf.derive" then
     match args with
     | [TI len; TB id; TB ctx; TB key] =>
@@ -167,6 +167,13 @@ Definition run (op : string) (args : list tok) : option (outcome (list tok)) :=
     match args with [TB v] => Some (omap (fun p => let '(e, t, d) := p in [match e with Some x => TB x | None => TN end; TB t; TB d]) (SerdeImpl.box_from_sealed_bytes v)) | _ => None end
   else if String.eqb op "bytes.signed.from_bytes" then
     match args with [TB v] => Some (omap (fun p => [TB (fst p); TB (snd p)]) (SerdeImpl.signed_from_bytes v)) | _ => None end
+  else if String.eqb op "rng.history" then
+    match args with
+    | [TB stream; TI c; TL ops] =>
+        let ops' := map (fun t => match t with TL [TI k; TI n] => ((if k =? 0 then RngImpl.Ident else RngImpl.X25519Pair), Z.to_nat n) | _ => (RngImpl.Ident, O) end) ops in
+        let '(outs, c') := RngImpl.run stream (Z.to_nat c) ops' in
+        Some (Ok [TL (map TB outs); TI (Z.of_nat c')])
+    | _ => None end
   else if String.eqb op "stream.init" then
     match args with
     | [TB header; TB key] => Some (Ok (st_toks (init_c header key)))
